@@ -29,3 +29,18 @@ for _i, _sig in enumerate(SWAP_CATALOGUE):
                           functions=[dict(name='_dbus_marshal_byteswap / byteswap_body_helper', file=SWAP, status='bounded'),
                                      dict(name='_dbus_validate_body_with_reason', file=VAL, status='bounded', note='used as the precondition "valid body" and as post-check')],
                           assumptions=['dbus-list behaves as a LIFO stack of integers in the signature validator (stub, not verified)']))
+
+# variants as array elements / top-level values through the WHOLE-BODY swap harness were tried and are NOT registered: even with a fully
+# concrete skeleton (array length, contained signature, padding) 'v' over 8 bytes and 'av' over 12 bytes did not finish in 600 s / 1800 s
+# (the validator run on the swapped buffer explores every type case of the contained signature).  The dispatch on the element type,
+# including arrays of variants, is decided by C02.swap.array_dispatch below instead.
+UNITS.append(dict(name='C02.swap.array_dispatch', props=['C02', 'C01'], kind='B', route='stub', entry='harness',
+    tus=[dict(file=SWAP, include_as='VERIF_TU'), dict(file=BASIC), dict(file='dbus/dbus-signature.c')], harness='harness/c02_swaparray.c', extra_sources=[ASSERT],
+    replace_calls={'_dbus_swap_array': 'verif_stub_swap_array'}, unwind=42, timeout=900, expect_s=60, bounds={'array data bytes': '<= 16', 'element type': 'every type code'},
+    must_have=['swaparr.len', 'swaparr.end', 'swaparr.fixed', 'swaparr.rec2'],
+    functions=[dict(name='byteswap_body_helper (ARRAY case)', file=SWAP, status='bounded', contract='length word reversed, old-order length; fixed elements > 1 byte block-reversed once; BYTE untouched; every other element type converted element by element by recursion up to exactly the array end'),
+               dict(name='byteswap_body_helper (recursive calls)', file=SWAP, status='replaced', note='lexical renaming; contract of one element conversion: ends after its start, inside the array'),
+               dict(name='_dbus_swap_array', file=BASIC, status='replaced', note='arguments logged (its effect: C02.basics)'),
+               dict(name='_dbus_type_reader_get_current_type/_get_element_type/_recurse', file='dbus/dbus-marshal-recursive.c', status='stub', note='abstract reader positioned on an array of the chosen element type'),
+               dict(name='_dbus_unpack_uint32, _dbus_type_get_alignment, dbus_type_is_fixed', file=BASIC + ', dbus/dbus-signature.c', status='inlined', note='real code')],
+    assumptions=['array data <= 16 bytes (bound); the array is validated: length a multiple of the fixed element size, elements fill it exactly']))
